@@ -120,6 +120,40 @@ fn nested_frame(cx: &Cx) -> Frame<'static> {
     Frame::new(Address(addr.0), MsgType(ty), crate::gens::data(data))
 }
 
+/// A valid frame in which, for some k, data byte k equals the checksum of everything before it
+/// (declared length included). Cutting the line right after that byte leaves a line whose
+/// checksum is right and whose declared length is wrong: only the length check can reject it.
+/// Cut points are chosen so that the remaining data count is congruent to the declared one
+/// modulo 128, 64, ... as well as arbitrary.
+fn prefix_consistent_frame(cx: &Cx) -> Frame<'static> {
+    use flipdot_core::{Address, MsgType};
+    let len = *cx.pick(&[20usize, 66, 130, 20, 66, 136, 200, 255, 129]);
+    // The checksum byte planted at a cut covers either the declared length byte (what is on the
+    // wire) or the length the truncated line would really have (what a decoder that rebuilds
+    // the frame computes): both kinds of decoder must be covered.
+    let over_actual = cx.chance(1, 2);
+    let mut data = cx.bytes(len);
+    let addr = crate::gens::address(cx);
+    let ty = cx.draw(256) as u8;
+    let mut cuts: Vec<usize> = vec![cx.draw(len as u64) as usize];
+    for m in [128usize, 64, 32, 16] {
+        if len > m {
+            cuts.push(len - m);
+        }
+    }
+    cuts.sort();
+    cuts.dedup();
+    for k in cuts {
+        let len_byte = if over_actual { k as u8 } else { len as u8 };
+        let mut sum: u8 = len_byte.wrapping_add((addr.0 >> 8) as u8).wrapping_add(addr.0 as u8).wrapping_add(ty);
+        for b in &data[..k] {
+            sum = sum.wrapping_add(*b);
+        }
+        data[k] = 0u8.wrapping_sub(sum);
+    }
+    Frame::new(Address(addr.0), MsgType(ty), crate::gens::data(data))
+}
+
 /// Independent look at an accepted line: Some(reason) if its declared length disagrees with its
 /// data or its bytes do not sum to zero. Lines of another shape are not judged here.
 fn inconsistent(line: &[u8]) -> Option<&'static str> {
@@ -165,6 +199,9 @@ impl Scenario for C02 {
         let f = if cx.chance(1, 6) {
             cx.probe("frame_embedding_another_frame");
             nested_frame(cx)
+        } else if cx.chance(1, 8) {
+            cx.probe("frame_with_checksum_consistent_prefix");
+            prefix_consistent_frame(cx)
         } else if cx.chance(1, 24) {
             let len = *cx.pick(&[255usize, 254, 128]);
             flipdot_core::Frame::new(crate::gens::address(cx), flipdot_core::MsgType(cx.draw(256) as u8), crate::gens::data(cx.bytes(len)))
